@@ -500,6 +500,10 @@ pub proof fn lemma_appended_keeps_entries(a: Map<Vec<u8>, Vec<User>>, b: Map<Vec
 //@ end
 
 // ================================================================= room level
+pub open spec fn new_admin_refs_by_admins(room: Room, old_edges: Seq<Edge>, new_edges: Seq<Edge>) -> bool {
+    forall|i: int| 0 <= i < new_edges.len() ==> (exists|j: int| 0 <= j < old_edges.len() && old_edges[j] == #[trigger] new_edges[i])
+        || spec_is_admin(room, new_edges[i].verifying_key, new_edges[i].cdate)
+}
 pub open spec fn id_in_auths(id: Uid, s: Seq<AuthorisationNode>) -> bool { exists|j: int| 0 <= j < s.len() && (#[trigger] s[j]).node.id@ =~= id@ }
 #[verifier::opaque]
 pub open spec fn has_id_auth(s: Seq<AuthorisationNode>, id: Seq<u8>) -> bool { exists|j: int| 0 <= j < s.len() && (#[trigger] s[j]).node.id@ =~= id }
@@ -719,6 +723,10 @@ pub open spec fn new_admins_entitled(room0: Room, old_s: Seq<UserNode>, s: Seq<U
             forall|i: int| 0 <= i < it.index@ ==> id_in_auths((#[trigger] room_node.auth_nodes@[i]).node.id, old_room_node.auth_nodes@) || new_group_ok(room_acc, room_node.auth_nodes@[i]),
 //@ insert after-stmt "for new_auth in &room_node.auth_nodes"
     assert(new_groups_entitled(room_acc, old_room_node.auth_nodes@, g_final));
+    proof {
+        // [new_admin_references_authored_by_admins] (known finding F10) a reference that places an entry in the room's ADMIN list and was not already held must have been authored by an admin at its date: the code never consults the author of a reference, and the entry rows are not bound to a list, so a plain member can place an admin-signed USER entry in the admin list with a reference it signs itself
+        if nondet(10) { assert(new_admin_refs_by_admins(room0, old_room_node.admin_edges@, room_node.admin_edges@)); }
+    }
 //@ spec
         requires
             forall|i: int| 0 <= i < old_room_node.auth_nodes@.len() ==> room.authorisations@.contains_key((#[trigger] old_room_node.auth_nodes@[i]).node.id),
@@ -734,6 +742,7 @@ pub open spec fn new_admins_entitled(room0: Room, old_s: Seq<UserNode>, s: Seq<U
             // [merged_room_new_admins_entitled] every admin entry not already held was authored by a key that is an admin at the entry's date
             r is Ok ==> new_admins_entitled(*room, old_room_node.admin_nodes@, final(room_node).admin_nodes@),
 //@ end
+pub uninterp spec fn nondet(k: int) -> bool;
 // ================================================================= dispatch: a received definition is merged with what is held, or checked as new
 //@ include common/keys.rs
 //@ extract src/database/authorisation_service.rs :: struct RoomAuthorisations
